@@ -3,13 +3,15 @@ import Hyeong.Lemmas.DbgSafe
 import Hyeong.Props.C04
 import Hyeong.Generated.Extracted
 import Hyeong.Lemmas.CliOutput
+import Hyeong.Lemmas.Utf8
 /-!
 # C13 — the command-line tool ends in a defined way on any file and any input
 
 `HyE.cliRun` / `cliCheck` model the decision logic of `main.rs`, `app/run.rs`, `app/check.rs`,
 `util/io.rs`, `util/ext.rs` (with the verdicts of the file system and the UTF-8 decoder as inputs).
-**Partial**: `clap`, `termcolor`, std I/O and the native stack are trusted; undecodable standard
-input is covered by the tie only.  Property theorems only.
+**Partial**: `clap`, `termcolor`, std I/O and the native stack are trusted. Standard input may be any bytes
+(`cliRunBytes`): it is cut into lines and decoded line by line as `read_line` does; a line that is not UTF-8
+stops the run the first time the program reads it.  Property theorems only.
 -/
 namespace HyE.C13
 open HyE HyP
@@ -23,6 +25,40 @@ theorem cli_outcome (budget fuel level : Nat) (path : List Char) (extOk : Bool) 
     (o : CliOut) (h : cliRun (N := N) budget fuel level path extOk src stdin = some o) :
     o.status ≤ 1 ∧ (o.diag = true → o.status = 1) :=
   cliRun_status budget fuel level path extOk src stdin o h
+
+/-- The same for **any bytes** on standard input (valid UTF-8 or not). -/
+theorem cli_outcome_bytes (budget fuel level : Nat) (path : List Char) (extOk : Bool) (src : Option (List Char)) (stdin : List UInt8)
+    (o : CliOut) (h : cliRunBytes (N := N) budget fuel level path extOk src stdin = some o) :
+    o.status ≤ 1 ∧ (o.diag = true → o.status = 1) :=
+  cliRunLines_status budget fuel level path extOk src _ o h
+
+/-- Valid UTF-8 on standard input is its text: running on the bytes that encode a text is running on the text (so
+everything proved for decoded input — `run_end_to_end`, C01, C02, C14 — holds for the byte-level tool). -/
+theorem bytes_of_text (budget fuel level : Nat) (path : List Char) (extOk : Bool) (src : Option (List Char)) (stdin : List Char) :
+    cliRunBytes (N := N) budget fuel level path extOk src (utf8Encode stdin) = cliRun (N := N) budget fuel level path extOk src stdin := by
+  unfold cliRunBytes cliRun
+  rw [decodeLines_encode]
+
+/-- Input that is not UTF-8: when the program reads a line that cannot be decoded (stack 0 used up, the next line
+marked undecodable) the command stops there with the input-error stop, and `run` shows everything written before,
+prints the diagnostic and returns status 1. Lines never read do not matter. -/
+theorem undecodable_input_diagnosed (s : St N) (w : World) (rest : List (List Char)) (hs : s.stacks 0 = [])
+    (hw : w.stdin = [] :: rest) :
+    popWrap (s, w) 0 = .error (.inputErr, w) ∧
+    ∀ (pre : List Char) (code : List Cmd), finishRun (N := N) pre (some (.error (.inputErr, w))) = some ⟨pre ++ w.out, w.err, true, 1⟩ := by
+  refine ⟨?_, fun _ _ => rfl⟩
+  unfold popWrap
+  simp only [↓reduceIte, hs, List.isEmpty_nil, hw]
+
+/-- non-vacuity: `흑 항.` (read a character, print it) on the bytes `FF 0A`: diagnostic, status 1, nothing printed
+after the log lines; on `41 FF 0A` likewise (the whole line is undecodable); on `41 0A FF` the first line is fine:
+`A` is printed and the run ends normally without ever reading the bad line -/
+example :
+    let prog := "흑 항.".toList
+    (cliRunBytes (N := HyN.NumI) 100 1000 0 "p".toList true (some prog) [0xFF, 0x0A]).map (fun o => (o.diag, o.status)) = some (true, 1) ∧
+    (cliRunBytes (N := HyN.NumI) 100 1000 0 "p".toList true (some prog) [0x41, 0xFF, 0x0A]).map (fun o => (o.diag, o.status)) = some (true, 1) ∧
+    (cliRunBytes (N := HyN.NumI) 100 1000 0 "p".toList true (some prog) [0x41, 0x0A, 0xFF]).map (fun o => (o.diag, o.status)) = some (false, 0) := by
+  decide
 
 /-- **End to end.** Whenever `hyeong run` ends on a readable `.hyeong` file, at any level, then after its log
 lines it has printed exactly the standard output and standard error of the interpreter's (level-0,
@@ -47,7 +83,7 @@ theorem cli_bad_file (budget fuel level : Nat) (path stdin : List Char) (extOk :
     (h : extOk = false ∨ src = none) :
     cliRun (N := N) budget fuel level path extOk src stdin = some ⟨[], [], true, 1⟩ ∧
     cliCheck path [] extOk src = ⟨[], [], true, 1⟩ := by
-  unfold cliRun cliCheck
+  unfold cliRun cliRunLines cliCheck
   rcases h with h | h
   · subst h; simp
   · subst h; cases extOk <;> simp
